@@ -99,19 +99,18 @@ theorem groupHash_member_set (ts1 ts2 : List Trait) (gs : List (Nat × GSpec))
 
 /-! ### the common group map -/
 
-/-- spec stored under `(tag, key)` -/
-def findSpec (m : CGMap) (tag : Nat) (k : W) : Option GSpec := (findGroup m tag k).map (·.spec)
-
 theorem cgFind_cons (e : CGEntry) (rest : CommonGroups) (k' : W) :
     cgFind (e :: rest) k' = if e.key == k' then some e else cgFind rest k' := by
   simp only [cgFind, List.find?]
   cases e.key == k' <;> rfl
 
-theorem cgFind_insertVariants (cg : CommonGroups) (k : W) (s : GSpec) (k' : W) :
-    (cgFind (cgInsertVariants cg k s) k').map (·.spec) =
-      match (cgFind cg k').map (·.spec) with
+/-- effect of one `insert` + `refcnt++` on what is stored under each key -/
+theorem cgSpec_insertVariants (cg : CommonGroups) (k : W) (s : GSpec) (k' : W) :
+    cgSpec (cgInsertVariants cg k s) k' =
+      match cgSpec cg k' with
       | some x => some x
       | none => if k = k' then some s else none := by
+  unfold cgSpec
   induction cg with
   | nil =>
     simp only [cgInsertVariants, cgFind_cons]
@@ -144,105 +143,376 @@ theorem cgFind_insertVariants (cg : CommonGroups) (k : W) (s : GSpec) (k' : W) :
         simp only [hk'f]
         exact ih
 
-theorem findSpec_insert (m : CGMap) (tag : Nat) (s : GSpec) (t : Nat) (k : W) :
-    findSpec (cgInsert m tag s) t k =
-      match findSpec m t k with
-      | some x => some x
-      | none => if tag = t ∧ groupHash s = k then some s else none := by
+theorem cgInsertVariants_length (cg : CommonGroups) (k : W) (s : GSpec) :
+    cg.length ≤ (cgInsertVariants cg k s).length ∧ (cgInsertVariants cg k s).length ≤ cg.length + 1 := by
+  induction cg with
+  | nil => simp [cgInsertVariants]
+  | cons e rest ih =>
+    simp only [cgInsertVariants]
+    split
+    · simp
+    · simp only [List.length_cons]; omega
+
+/-- an occupied key is the key of an entry -/
+theorem cgFind_key_mem (cg : CommonGroups) (k : W) (e : CGEntry) (h : cgFind cg k = some e) : k ∈ cg.map (·.key) := by
+  have hm := List.mem_of_find?_eq_some h
+  have hp := List.find?_some h
+  simp only [beq_iff_eq] at hp
+  exact List.mem_map.mpr ⟨e, hm, hp⟩
+
+/-! ### the probing loop -/
+
+theorem probeLoop_spec (good : W → Bool) : ∀ (n : Nat) (k : W),
+    ∃ j, j ≤ n ∧ probeLoop good n k = k + BitVec.ofNat 32 j ∧ (∀ i, i < j → good (k + BitVec.ofNat 32 i) = false) ∧
+      (good (probeLoop good n k) = true ∨ j = n)
+  | 0, k => ⟨0, Nat.le_refl 0, by simp [probeLoop], by intro i hi; omega, Or.inr rfl⟩
+  | n + 1, k => by
+    by_cases hg : good k = true
+    · exact ⟨0, Nat.zero_le _, by simp [probeLoop, hg], by intro i hi; omega, Or.inl (by simp [probeLoop, hg])⟩
+    · obtain ⟨j, hj, he, hb, hx⟩ := probeLoop_spec good n (k + 1)
+      have hstep : probeLoop good (n + 1) k = probeLoop good n (k + 1) := by simp [probeLoop, hg]
+      have hadd : ∀ i : Nat, k + 1 + BitVec.ofNat 32 i = k + BitVec.ofNat 32 (i + 1) := by
+        intro i
+        rw [BitVec.ofNat_add, BitVec.add_assoc, BitVec.add_comm (BitVec.ofNat 32 i)]
+        rfl
+      refine ⟨j + 1, by omega, by rw [hstep, he, hadd], ?_, ?_⟩
+      · intro i hi
+        cases i with
+        | zero => simpa using hg
+        | succ i => rw [← hadd]; exact hb i (by omega)
+      · rw [hstep]
+        rcases hx with hx | hx
+        · exact Or.inl hx
+        · exact Or.inr (by omega)
+
+/-- the loop result is determined by the exit condition along the path -/
+theorem probeLoop_eq (good : W → Bool) : ∀ (n : Nat) (k : W) (j : Nat), j < n →
+    (∀ i, i < j → good (k + BitVec.ofNat 32 i) = false) → good (k + BitVec.ofNat 32 j) = true →
+    probeLoop good n k = k + BitVec.ofNat 32 j
+  | 0, _, _, hj, _, _ => by omega
+  | n + 1, k, 0, _, _, hg => by
+    have : good k = true := by simpa using hg
+    simp [probeLoop, this]
+  | n + 1, k, j + 1, hj, hb, hg => by
+    have h0 : good k = false := by simpa using hb 0 (by omega)
+    have hadd : ∀ i : Nat, k + 1 + BitVec.ofNat 32 i = k + BitVec.ofNat 32 (i + 1) := by
+      intro i
+      rw [BitVec.ofNat_add, BitVec.add_assoc, BitVec.add_comm (BitVec.ofNat 32 i)]
+      rfl
+    have := probeLoop_eq good n (k + 1) j (by omega) (fun i hi => by rw [hadd]; exact hb (i + 1) (by omega)) (by rw [hadd]; exact hg)
+    simp only [probeLoop, h0, Bool.false_eq_true, if_false]
+    rw [this, hadd]
+
+/-- a list without duplicates that is contained in another is not longer -/
+theorem nodup_subset_length {α : Type} [DecidableEq α] : ∀ (a b : List α), a.Nodup → (∀ x ∈ a, x ∈ b) → a.length ≤ b.length
+  | [], _, _, _ => Nat.zero_le _
+  | x :: xs, b, hn, hs => by
+    have hx := List.nodup_cons.mp hn
+    have hxb : x ∈ b := hs x (by simp)
+    have ih := nodup_subset_length xs (b.erase x) hx.2 (by
+      intro y hy
+      have hyb := hs y (by simp [hy])
+      have hne : y ≠ x := fun h => hx.1 (h ▸ hy)
+      exact (List.mem_erase_of_ne hne).mpr hyb)
+    rw [List.length_erase_of_mem hxb] at ih
+    have : 0 < b.length := List.length_pos_of_mem hxb
+    simp only [List.length_cons]; omega
+
+theorem offsets_nodup (k : W) (n : Nat) (hn : n ≤ 2 ^ 32) :
+    ((List.range n).map (fun i => k + BitVec.ofNat 32 i)).Nodup := by
+  rw [List.Nodup, List.pairwise_map]
+  have hr : (List.range n).Pairwise (· < ·) := List.pairwise_lt_range
+  refine List.Pairwise.imp_of_mem ?_ hr
+  intro a b ha hb hab heq
+  have hb' : b < n := List.mem_range.mp hb
+  have h1 := congrArg BitVec.toNat heq
+  simp only [BitVec.toNat_add, BitVec.toNat_ofNat] at h1
+  have hk := k.isLt
+  omega
+
+/-- BOUNDEDNESS of the probe: in a table with fewer than 2^32 entries the loop leaves through its own exit condition
+(a free slot or the identical definition) after at most `entries` increments -/
+theorem probe_exits (cg : CommonGroups) (s : GSpec) (hlen : cg.length < 2 ^ 32) :
+    ∃ j, j ≤ cg.length ∧ probe cg s = groupHash s + BitVec.ofNat 32 j ∧
+      (∀ i, i < j → goodSlot cg s (groupHash s + BitVec.ofNat 32 i) = false) ∧ goodSlot cg s (probe cg s) = true := by
+  obtain ⟨j, hj, he, hb, hx⟩ := probeLoop_spec (goodSlot cg s) (cg.length + 1) (groupHash s)
+  rcases hx with hx | hx
+  · -- left through the exit condition; j ≤ length because otherwise all length+1 offsets were occupied
+    by_cases hjl : j ≤ cg.length
+    · exact ⟨j, hjl, he, hb, hx⟩
+    · exfalso
+      have hjn : j = cg.length + 1 := by omega
+      have hsub : ∀ x ∈ (List.range (cg.length + 1)).map (fun i => groupHash s + BitVec.ofNat 32 i), x ∈ cg.map (·.key) := by
+        intro x hxm
+        obtain ⟨i, hi, rfl⟩ := List.mem_map.mp hxm
+        have hbad := hb i (by rw [hjn]; exact List.mem_range.mp hi)
+        unfold goodSlot cgSpec at hbad
+        cases hf : cgFind cg (groupHash s + BitVec.ofNat 32 i) with
+        | none => simp [hf] at hbad
+        | some e => exact cgFind_key_mem cg _ e hf
+      have := nodup_subset_length _ _ (offsets_nodup (groupHash s) (cg.length + 1) (by omega)) hsub
+      simp at this
+      omega
+  · exfalso
+    have hsub : ∀ x ∈ (List.range (cg.length + 1)).map (fun i => groupHash s + BitVec.ofNat 32 i), x ∈ cg.map (·.key) := by
+      intro x hxm
+      obtain ⟨i, hi, rfl⟩ := List.mem_map.mp hxm
+      have hbad := hb i (by rw [hx]; exact List.mem_range.mp hi)
+      unfold goodSlot cgSpec at hbad
+      cases hf : cgFind cg (groupHash s + BitVec.ofNat 32 i) with
+      | none => simp [hf] at hbad
+      | some e => exact cgFind_key_mem cg _ e hf
+    have := nodup_subset_length _ _ (offsets_nodup (groupHash s) (cg.length + 1) (by omega)) hsub
+    simp at this
+    omega
+
+theorem goodSlot_true_iff (cg : CommonGroups) (s : GSpec) (k : W) :
+    goodSlot cg s k = true ↔ (cgSpec cg k = none ∨ cgSpec cg k = some s) := by
+  unfold goodSlot
+  cases h : cgSpec cg k with
+  | none => simp
+  | some x =>
+    simp only [false_or, reduceCtorEq, Option.some.injEq]
+    constructor
+    · exact GSpec.beq_eq x s
+    · intro e; rw [e]; exact GSpec.beq_refl s
+
+theorem goodSlot_false_iff (cg : CommonGroups) (s : GSpec) (k : W) :
+    goodSlot cg s k = false ↔ ∃ x, cgSpec cg k = some x ∧ x ≠ s := by
+  constructor
+  · intro h
+    cases hc : cgSpec cg k with
+    | none => have := (goodSlot_true_iff cg s k).mpr (Or.inl hc); rw [h] at this; simp at this
+    | some x =>
+      refine ⟨x, rfl, ?_⟩
+      intro e
+      have := (goodSlot_true_iff cg s k).mpr (Or.inr (by rw [hc, e])); rw [h] at this; simp at this
+  · intro ⟨x, hx, hne⟩
+    cases hg : goodSlot cg s k with
+    | false => rfl
+    | true =>
+      rcases (goodSlot_true_iff cg s k).mp hg with h | h
+      · rw [hx] at h; simp at h
+      · rw [hx] at h; exact absurd (Option.some.inj h) hne
+
+/-- one insertion under a count tag -/
+def ins (cg : CommonGroups) (s : GSpec) : CommonGroups := cgInsertVariants cg (probe cg s) s
+
+/-- STABILITY of the key (this is what justifies recomputing `_hash` against the final map): a definition that is found
+under its probed key keeps that key, and stays there, when any definition is inserted -/
+theorem probe_stable (cg : CommonGroups) (s s' : GSpec) (hlen : cg.length < 2 ^ 32)
+    (hs : cgSpec cg (probe cg s) = some s) :
+    probe (ins cg s') s = probe cg s ∧ cgSpec (ins cg s') (probe cg s) = some s := by
+  obtain ⟨j, hj, he, hb, _⟩ := probe_exits cg s hlen
+  have hF : ∀ x, cgSpec (ins cg s') x = match cgSpec cg x with
+      | some y => some y
+      | none => if probe cg s' = x then some s' else none := cgSpec_insertVariants cg (probe cg s') s'
+  have hkeep : ∀ x y, cgSpec cg x = some y → cgSpec (ins cg s') x = some y := by
+    intro x y hxy; rw [hF x, hxy]
+  have hlen' := (cgInsertVariants_length cg (probe cg s') s').1
+  have h2 : cgSpec (ins cg s') (probe cg s) = some s := hkeep _ _ hs
+  refine ⟨?_, h2⟩
+  unfold probe
+  have := probeLoop_eq (goodSlot (ins cg s') s) ((ins cg s').length + 1) (groupHash s) j
+    (by unfold ins; omega)
+    (by
+      intro i hi
+      obtain ⟨x, hx, hne⟩ := (goodSlot_false_iff cg s _).mp (hb i hi)
+      exact (goodSlot_false_iff _ s _).mpr ⟨x, hkeep _ _ hx, hne⟩)
+    (by
+      rw [← he]
+      exact (goodSlot_true_iff _ s _).mpr (Or.inr h2))
+  rw [this]
+  unfold probe at he
+  exact he.symm
+
+/-- the inserted definition is found under its probed key afterwards -/
+theorem probe_inserted (cg : CommonGroups) (s : GSpec) (hlen : cg.length < 2 ^ 32) :
+    probe (ins cg s) s = probe cg s ∧ cgSpec (ins cg s) (probe cg s) = some s := by
+  obtain ⟨j, hj, he, hb, hg⟩ := probe_exits cg s hlen
+  have hF : ∀ x, cgSpec (ins cg s) x = match cgSpec cg x with
+      | some y => some y
+      | none => if probe cg s = x then some s else none := cgSpec_insertVariants cg (probe cg s) s
+  have hkeep : ∀ x y, cgSpec cg x = some y → cgSpec (ins cg s) x = some y := by
+    intro x y hxy; rw [hF x, hxy]
+  have hlen' := (cgInsertVariants_length cg (probe cg s) s).1
+  have h2 : cgSpec (ins cg s) (probe cg s) = some s := by
+    rcases (goodSlot_true_iff cg s _).mp hg with h | h
+    · rw [hF, h]; simp
+    · exact hkeep _ _ h
+  refine ⟨?_, h2⟩
+  unfold probe
+  have := probeLoop_eq (goodSlot (ins cg s) s) ((ins cg s).length + 1) (groupHash s) j
+    (by unfold ins; omega)
+    (by
+      intro i hi
+      obtain ⟨x, hx, hne⟩ := (goodSlot_false_iff cg s _).mp (hb i hi)
+      exact (goodSlot_false_iff _ s _).mpr ⟨x, hkeep _ _ hx, hne⟩)
+    (by
+      rw [← he]
+      exact (goodSlot_true_iff _ s _).mpr (Or.inr h2))
+  rw [this]
+  unfold probe at he
+  exact he.symm
+
+/-- whatever is stored was inserted or was there before -/
+theorem cgSpec_ins_mem (cg : CommonGroups) (s' : GSpec) (k : W) (x : GSpec) (h : cgSpec (ins cg s') k = some x) :
+    cgSpec cg k = some x ∨ x = s' := by
+  have hF := cgSpec_insertVariants cg (probe cg s') s' k
+  unfold ins at h
+  rw [hF] at h
+  cases hc : cgSpec cg k with
+  | some y => rw [hc] at h; exact Or.inl (by simpa using h)
+  | none =>
+    rw [hc] at h
+    simp only at h
+    split at h
+    · exact Or.inr (Option.some.inj h).symm
+    · simp at h
+
+/-! ### the map of all count tags -/
+
+theorem variants_insert (m : CGMap) (tag : Nat) (s : GSpec) (t : Nat) :
+    variants (cgInsert m tag s) t = if t = tag then ins (variants m tag) s else variants m t := by
   induction m with
   | nil =>
-    simp only [cgInsert, findSpec, findGroup, List.find?]
-    by_cases h : tag = t
-    · subst h
-      simp only [decide_true]
-      have := cgFind_insertVariants [] (groupHash s) s k
-      simp only [cgFind, List.find?] at this
-      simp only [cgFind]
-      rw [this]
-      simp
-    · have : decide (tag = t) = false := by simpa using h
+    simp only [cgInsert, variants, List.find?]
+    by_cases h : t = tag
+    · subst h; simp [ins]
+    · have : decide (tag = t) = false := by simpa using (fun e : tag = t => h e.symm)
       simp [this, h]
   | cons p rest ih =>
     obtain ⟨t0, cg⟩ := p
     simp only [cgInsert]
     by_cases h0 : t0 = tag
-    · simp only [h0, if_true]
-      by_cases ht : tag = t
-      · subst ht
-        simp only [findSpec, findGroup, List.find?, decide_true]
-        have := cgFind_insertVariants cg (groupHash s) s k
-        rw [this]
-        cases (cgFind cg k).map (·.spec) <;> simp
-      · have hd : decide (tag = t) = false := by simpa using ht
-        simp only [findSpec, findGroup, List.find?, hd]
-        cases hf : (List.find? (fun p => decide (p.1 = t)) rest) with
-        | none => simp [ht]
-        | some q =>
-          cases hq : (cgFind q.2 k).map (·.spec) with
-          | none => simp [hq, ht]
-          | some x => simp [hq]
+    · subst h0
+      simp only [if_true]
+      by_cases h : t = t0
+      · subst h; simp [variants, List.find?, ins]
+      · have hd : decide (t0 = t) = false := by simpa using (fun e : t0 = t => h e.symm)
+        simp [variants, List.find?, hd, h]
     · simp only [h0, if_false]
-      by_cases ht : t0 = t
-      · have hne : tag ≠ t := by intro h; exact h0 (ht.trans h.symm)
-        simp only [findSpec, findGroup, List.find?, ht, decide_true]
-        cases hq : (cgFind cg k).map (·.spec) with
-        | none => simp [hq, hne]
-        | some x => simp [hq]
-      · have hd : decide (t0 = t) = false := by simpa using ht
-        simp only [findSpec, findGroup, List.find?, hd] at ih ⊢
-        exact ih
+      by_cases h1 : t0 = t
+      · subst h1
+        have hne : ¬ t0 = tag := h0
+        simp [variants, List.find?, hne]
+      · have hd : decide (t0 = t) = false := by simpa using h1
+        have := ih
+        simp only [variants, List.find?, hd] at this ⊢
+        by_cases h2 : t = tag
+        · subst h2
+          simp only [if_true] at this ⊢
+          have hd2 : decide (t0 = t) = false := hd
+          simp only [hd2] at this ⊢
+          exact this
+        · simp only [h2, if_false] at this ⊢
+          exact this
+
+/-- spec stored under `(tag, key)` -/
+def findSpec (m : CGMap) (tag : Nat) (k : W) : Option GSpec := (findGroup m tag k).map (·.spec)
+
+theorem findSpec_eq (m : CGMap) (tag : Nat) (k : W) : findSpec m tag k = cgSpec (variants m tag) k := rfl
 
 /-- fold of insertions starting from any map -/
 def buildFrom (m : CGMap) (occs : List (Nat × GSpec)) : CGMap := occs.foldl (fun m o => cgInsert m o.1 o.2) m
 
-/-- `find_group` after all insertions returns the FIRST definition inserted under that (count tag, hash) -/
-theorem findSpec_buildFrom (occs : List (Nat × GSpec)) : ∀ (m : CGMap) (t : Nat) (k : W),
-    findSpec (buildFrom m occs) t k =
-      match findSpec m t k with
-      | some x => some x
-      | none => (occs.find? (fun o => decide (o.1 = t ∧ groupHash o.2 = k))).map (·.2) := by
-  induction occs with
-  | nil => intro m t k; simp [buildFrom]; cases findSpec m t k <;> rfl
-  | cons o rest ih =>
-    intro m t k
-    simp only [buildFrom, List.foldl_cons]
-    have := ih (cgInsert m o.1 o.2) t k
-    simp only [buildFrom] at this
-    rw [this, findSpec_insert]
-    cases hm : findSpec m t k with
-    | some x => simp
-    | none =>
-      by_cases hc : o.1 = t ∧ groupHash o.2 = k
-      · simp [hc, List.find?]
-      · simp [hc, List.find?]
+/-- every count tag has at most as many variants as there were insertions -/
+theorem variants_length_buildFrom : ∀ (occs : List (Nat × GSpec)) (m : CGMap) (n : Nat),
+    (∀ t, (variants m t).length ≤ n) → ∀ t, (variants (buildFrom m occs) t).length ≤ n + occs.length
+  | [], m, n, h, t => by simpa [buildFrom] using h t
+  | o :: rest, m, n, h, t => by
+    have := variants_length_buildFrom rest (cgInsert m o.1 o.2) (n + 1) (by
+      intro t'
+      rw [variants_insert]
+      split
+      · have := (cgInsertVariants_length (variants m o.1) (probe (variants m o.1) o.2) o.2).2
+        have := h o.1
+        unfold ins; omega
+      · have := h t'; omega) t
+    simp only [buildFrom, List.foldl_cons, List.length_cons] at this ⊢
+    omega
 
-theorem findSpec_buildMap (occs : List (Nat × GSpec)) (t : Nat) (k : W) :
-    findSpec (buildMap occs) t k = (occs.find? (fun o => decide (o.1 = t ∧ groupHash o.2 = k))).map (·.2) := by
-  have := findSpec_buildFrom occs [] t k
-  simpa [buildFrom, buildMap, findSpec, findGroup] using this
+/-- what is stored after the insertions was stored before or is one of the inserted definitions -/
+theorem findSpec_buildFrom_mem : ∀ (occs : List (Nat × GSpec)) (m : CGMap) (t : Nat) (k : W) (x : GSpec),
+    findSpec (buildFrom m occs) t k = some x → findSpec m t k = some x ∨ (t, x) ∈ occs
+  | [], m, t, k, x, h => Or.inl (by simpa [buildFrom] using h)
+  | o :: rest, m, t, k, x, h => by
+    have := findSpec_buildFrom_mem rest (cgInsert m o.1 o.2) t k x (by simpa [buildFrom] using h)
+    rcases this with h1 | h1
+    · rw [findSpec_eq, variants_insert] at h1
+      split at h1
+      · rename_i ht
+        rcases cgSpec_ins_mem _ _ _ _ h1 with h2 | h2
+        · exact Or.inl (by rw [findSpec_eq, ht]; exact h2)
+        · exact Or.inr (by rw [h2, ht]; simp)
+      · exact Or.inl h1
+    · exact Or.inr (by simp [h1])
+
+theorem findSpec_buildMap_mem (occs : List (Nat × GSpec)) (t : Nat) (k : W) (x : GSpec)
+    (h : findSpec (buildMap occs) t k = some x) : (t, x) ∈ occs := by
+  rcases findSpec_buildFrom_mem occs [] t k x (by simpa [buildFrom, buildMap] using h) with h1 | h1
+  · simp [findSpec, findGroup, variants, cgFind] at h1
+  · exact h1
+
+/-- INVARIANT of the fold: every definition inserted so far is found under its own probed key -/
+theorem own_slot_buildFrom : ∀ (occs : List (Nat × GSpec)) (m : CGMap) (seen : List (Nat × GSpec)) (n : Nat),
+    (∀ t, (variants m t).length ≤ n) → n + occs.length < 2 ^ 32 →
+    (∀ o ∈ seen, findSpec m o.1 (probeKey m o.1 o.2) = some o.2) →
+    ∀ o, (o ∈ seen ∨ o ∈ occs) → findSpec (buildFrom m occs) o.1 (probeKey (buildFrom m occs) o.1 o.2) = some o.2
+  | [], m, seen, n, _, _, hinv, o, ho => by
+    rcases ho with ho | ho
+    · simpa [buildFrom] using hinv o ho
+    · simp at ho
+  | p :: rest, m, seen, n, hlen, hb, hinv, o, ho => by
+    have hl1 : ∀ t, (variants (cgInsert m p.1 p.2) t).length ≤ n + 1 := by
+      intro t'
+      rw [variants_insert]
+      split
+      · have := (cgInsertVariants_length (variants m p.1) (probe (variants m p.1) p.2) p.2).2
+        have := hlen p.1
+        unfold ins; omega
+      · have := hlen t'; omega
+    have hcg : (variants m p.1).length < 2 ^ 32 := by
+      have := hlen p.1; simp only [List.length_cons] at hb; omega
+    have hinv' : ∀ q ∈ p :: seen, findSpec (cgInsert m p.1 p.2) q.1 (probeKey (cgInsert m p.1 p.2) q.1 q.2) = some q.2 := by
+      intro q hq
+      simp only [findSpec_eq, probeKey, variants_insert]
+      rcases List.mem_cons.mp hq with rfl | hq
+      · simp only [if_true]
+        have := probe_inserted (variants m q.1) q.2 hcg
+        rw [this.1]; exact this.2
+      · by_cases ht : q.1 = p.1
+        · simp only [ht, if_true]
+          have h0 := hinv q hq
+          simp only [findSpec_eq, probeKey, ht] at h0
+          have := probe_stable (variants m p.1) q.2 p.2 hcg h0
+          rw [this.1]; exact this.2
+        · simp only [ht, if_false]
+          exact hinv q hq
+    have := own_slot_buildFrom rest (cgInsert m p.1 p.2) (p :: seen) (n + 1) hl1
+      (by simp only [List.length_cons] at hb; omega) hinv' o (by
+        rcases ho with ho | ho
+        · exact Or.inl (by simp [ho])
+        · rcases List.mem_cons.mp ho with rfl | ho
+          · exact Or.inl (by simp)
+          · exact Or.inr ho)
+    simpa [buildFrom] using this
+
+/-- after all insertions every definition is found under its own key – no hypothesis on the hash -/
+theorem findSpec_own (occs : List (Nat × GSpec)) (hb : occs.length < 2 ^ 32) (o : Nat × GSpec) (ho : o ∈ occs) :
+    findSpec (buildMap occs) o.1 (probeKey (buildMap occs) o.1 o.2) = some o.2 := by
+  have := own_slot_buildFrom occs [] [] 0 (by intro t; simp [variants]) (by omega) (by intro o ho; simp at ho) o (Or.inr ho)
+  simpa [buildFrom, buildMap] using this
 
 /-! ### resolve -/
-
-/-- the hash separates the definitions of every count tag -/
-def HashInjOn (occs : List (Nat × GSpec)) : Prop :=
-  ∀ a ∈ occs, ∀ b ∈ occs, a.1 = b.1 → groupHash a.2 = groupHash b.2 → a.2 = b.2
 
 /-- every nested group of a listed group is listed (true of the insertion sequence of `parse_groups`) -/
 def Closed (occs : List (Nat × GSpec)) : Prop := ∀ o ∈ occs, ∀ g ∈ o.2.groups, g ∈ occs
 
-theorem findSpec_own (occs : List (Nat × GSpec)) (hinj : HashInjOn occs) (o : Nat × GSpec) (ho : o ∈ occs) :
-    findSpec (buildMap occs) o.1 (groupHash o.2) = some o.2 := by
-  rw [findSpec_buildMap]
-  cases hf : occs.find? (fun o' => decide (o'.1 = o.1 ∧ groupHash o'.2 = groupHash o.2)) with
-  | none =>
-    have := List.find?_eq_none.mp hf o ho
-    simp at this
-  | some o' =>
-    have hp := List.find?_some hf
-    have hm := List.mem_of_find?_eq_some hf
-    simp only [decide_eq_true_eq] at hp
-    simp only [Option.map_some]
-    rw [hinj o' hm o ho hp.1 hp.2]
+/-- the bare hash separates the definitions of every count tag (no longer needed for anything; kept to state what the
+key alone does and does not guarantee) -/
+def HashInjOn (occs : List (Nat × GSpec)) : Prop :=
+  ∀ a ∈ occs, ∀ b ∈ occs, a.1 = b.1 → groupHash a.2 = groupHash b.2 → a.2 = b.2
 
 theorem findGroup_of_findSpec (m : CGMap) (t : Nat) (k : W) (s : GSpec) (h : findSpec m t k = some s) :
     ∃ e, findGroup m t k = some e ∧ e.spec = s := by
@@ -279,14 +549,15 @@ theorem depth_nested (s : GSpec) (g : Nat × GSpec) (h : g ∈ s.groups) : g.2.d
 
 theorem GSpec.eta (s : GSpec) : GSpec.mk s.traits s.groups = s := by cases s; rfl
 
-/-- with a separating hash every group of every message is generated from its own definition, at every nesting depth -/
-theorem resolve_own (occs : List (Nat × GSpec)) (hcl : Closed occs) (hinj : HashInjOn occs) :
+/-- every group of every message is generated from its own definition, at every nesting depth, for every closed insertion
+sequence of fewer than 2^32 groups -/
+theorem resolve_own (occs : List (Nat × GSpec)) (hcl : Closed occs) (hb : occs.length < 2 ^ 32) :
     ∀ (fuel : Nat) (o : Nat × GSpec), o ∈ occs → o.2.depth ≤ fuel → resolve (buildMap occs) fuel o.1 o.2 = some o.2
   | 0, o, _, hd => by
     cases hs : o.2 with
     | mk ts gs => rw [hs] at hd; simp [GSpec.depth] at hd
   | fuel + 1, o, ho, hd => by
-    obtain ⟨e, he, hes⟩ := findGroup_of_findSpec _ _ _ _ (findSpec_own occs hinj o ho)
+    obtain ⟨e, he, hes⟩ := findGroup_of_findSpec _ _ _ _ (findSpec_own occs hb o ho)
     simp only [resolve, he]
     rw [hes]
     have : optMapGroups (resolve (buildMap occs) fuel) o.2.groups = some o.2.groups := by
@@ -294,7 +565,7 @@ theorem resolve_own (occs : List (Nat × GSpec)) (hcl : Closed occs) (hinj : Has
       intro g hg
       have hgo := hcl o ho g hg
       have := depth_nested o.2 g hg
-      exact resolve_own occs hcl hinj fuel g hgo (by omega)
+      exact resolve_own occs hcl hb fuel g hgo (by omega)
     rw [this]
     simp [GSpec.eta]
 
